@@ -641,6 +641,72 @@ func c12exec(c *h.Ctx, cs *h.Case) {
 					obs += " ports=" + h.Ints(ports)
 				}
 				check(ro, sc.Tree, c12want{"sim", hosts, bf, hosts, 0, false}, "")
+			case (len(tk) == 6 && tk[1] == "npred") || (len(tk) == 6 && tk[1] == "bpred"):
+				// onet's own predicates on a generated tree (c12pred.go)
+				M, ok0 := atoi(tk[5])
+				var ro *onet.Roster
+				var t *onet.Tree
+				var n, N, nodes int
+				gen := "nary"
+				if tk[1] == "npred" {
+					var ok1, ok2, ok3 bool
+					var r int
+					n, ok1 = atoi(tk[2])
+					N, ok2 = atoi(tk[3])
+					r, ok3 = atoi(tk[4])
+					if !ok0 || !ok1 || !ok2 || !ok3 || n == 0 || n > 4096 || r >= n {
+						return
+					}
+					nodes = n
+					ro = c12roster(distinct(n))
+					t = ro.GenerateNaryTreeWithRoot(N, ro.List[r])
+				} else {
+					gen = "big"
+					var ok1, ok2 bool
+					N, ok1 = atoi(tk[2])
+					nodes, ok2 = atoi(tk[3])
+					var hosts []int
+					ok3 := true
+					for _, f := range strings.Split(tk[4], ",") {
+						v, ok := atoi(f)
+						ok3 = ok3 && ok
+						hosts = append(hosts, v)
+					}
+					if !ok0 || !ok1 || !ok2 || !ok3 || N == 0 || nodes > 4096 {
+						return
+					}
+					n = len(hosts)
+					ro = c12roster(hosts)
+					done := make(chan interface{}, 1)
+					go func() {
+						defer func() { done <- recover() }()
+						t = ro.GenerateBigNaryTree(N, nodes)
+					}()
+					select {
+					case r := <-done:
+						if r != nil {
+							panic(r)
+						}
+					case <-time.After(c12bigTimeout(nodes)):
+						obs = "hang"
+						hung = true
+						cs.Fail("big-hang", "GenerateBigNaryTree did not return — "+op)
+						return
+					}
+				}
+				if t == nil || t.Root == nil {
+					obs = "none"
+					if cs.Class != "boundary" {
+						cs.Fail(gen+"-nil", "the generator returned no tree — "+op)
+					}
+					return
+				}
+				var what, detail string
+				obs, what, detail = c12preds(t, gen, n, N, nodes, M)
+				c.Count("predicates: " + gen + " nary=" + obs[strings.Index(obs, "nary=")+5:strings.Index(obs, "nary=")+6] + " useslist=" + obs[strings.Index(obs, "useslist=")+9:strings.Index(obs, "useslist=")+10])
+				if what != "" && cs.Class != "boundary" {
+					cs.Fail(gen+"-pred-"+what, detail+" — "+op)
+				}
 			case len(tk) == 5 && tk[1] == "big":
 				N, ok1 := atoi(tk[2])
 				nodes, ok2 := atoi(tk[3])
@@ -908,18 +974,61 @@ func c12gen(c *h.Ctx, yield func(*h.Case)) {
 		ops = append(ops, "c12 simnil 3 2", "c12 simnil 1 1")
 		emit("simulation localhost", ops)
 	}
+	// --- onet's own predicates (Size, IsNary, IsBinary, UsesList, IsLeaf …) on generated trees ----------
+	for n := 1; n <= c.Pick(14, 30); n++ {
+		var ops []string
+		for N := 1; N <= c.Pick(5, 7); N++ {
+			for _, M := range []int{N, 2, N + 1} {
+				ops = append(ops, fmt.Sprintf("c12 npred %d %d %d %d", n, N, (n*N+M)%n, M))
+			}
+		}
+		if n >= 2 {
+			ops = append(ops, fmt.Sprintf("c12 npred %d %d 0 %d", n, n-1, n-1)) // star
+		}
+		emit("predicates nary", ops)
+	}
+	for p := 0; p < 4; p++ {
+		var ops []string
+		for n := 1; n <= c.Pick(7, 12); n++ {
+			for N := 1; N <= 3; N++ {
+				for _, nodes := range []int{1, n - 1, n, n + 1, 2*n + 1} {
+					if nodes >= 1 {
+						ops = append(ops, fmt.Sprintf("c12 bpred %d %d %s %d", N, nodes, pattern(p, n), N))
+					}
+				}
+			}
+		}
+		emit("predicates big "+pname[p], ops)
+	}
+	for i := 0; i < c.Pick(10, 60); i++ {
+		n := 1 + r.Intn(c.Pick(200, 900))
+		N := 1 + r.Intn(9)
+		if r.Intn(3) == 0 && n > 1 {
+			// N divides n-1: the tree passes IsNary(N)
+			N = 1 + r.Intn(8)
+			n = 1 + N*(1+r.Intn(c.Pick(40, 120)))
+		}
+		nodes := 1 + r.Intn(2*n)
+		if r.Intn(2) == 0 {
+			nodes = n
+		}
+		emit("predicates sampled", []string{fmt.Sprintf("c12 npred %d %d %d %d", n, N, r.Intn(n), N),
+			fmt.Sprintf("c12 npred %d %d %d %d", n, N, r.Intn(n), 1+r.Intn(N+1)),
+			fmt.Sprintf("c12 bpred %d %d %s %d", N, nodes, pattern(r.Intn(7), n), N)})
+	}
 	// --- boundary: N = 0 (outside the property's domain; model and code must still agree) and
 	// malformed lines ------------------------------------------------------------------------------
 	emit("boundary", []string{"c12 nary 1 0 0", "c12 nary 2 0 0", "c12 nary 5 0 3", "c12 big 0 1 0,1", "c12 big 0 3 0,1",
 		"c12 big 2 0 0,1,2", "c12 star 1", "c12 star 2", "c12 binary 1",
 		"c12 bigempty 2 3", "c12 bigempty 1 1", "c12 naryk 2 nil -", "c12 naryk 2 5 -", "c12 naryk 0 nil 4,2,9", "c12 naryk 0 2 4,2,9",
-		"c12 sim 1 0 1 0", "c12 sim 3 0 2 1"})
+		"c12 sim 1 0 1 0", "c12 sim 3 0 2 1", "c12 npred 1 0 0 0", "c12 npred 1 3 0 0", "c12 bpred 2 1 0 0"})
 	emit("malformed", []string{"c12 nary 0 2 0", "c12 nary 3 2 3", "c12 nary 3 2", "c12 nary a 2 0", "c12 big 2 5", "c12 big 2 5 -",
 		"c12 big 2 x 0,1", "c12 binary 0", "c12 star", "c12 tree 3",
 		"c12 lt.tree 0", "c12 lt.bigtree 3 0 2", "c12 lt.bigtree 3 2", "c12 lt.tree x",
 		"c12 naryk 2 nil", "c12 naryk x nil 1,2", "c12 naryk 2 y 1,2", "c12 naryk 2 1 1,,2", "c12 bigempty 2", "c12 bigempty a 1",
 		"c12 znary 0 0 2", "c12 znary a 3 2", "c12 zbig 0 0 3 0,1", "c12 zbig 0 2 3", "c12 zbig 0 2 x 0,1",
-		"c12 sim 0 2 1 0", "c12 sim 3 2 0 0", "c12 sim 3 2 1 2", "c12 sim 3 2 1", "c12 simlocal 0 2", "c12 simlocal 2", "c12 simnil 3", "c12 simnil a 2"})
+		"c12 sim 0 2 1 0", "c12 sim 3 2 0 0", "c12 sim 3 2 1 2", "c12 sim 3 2 1", "c12 simlocal 0 2", "c12 simlocal 2", "c12 simnil 3", "c12 simnil a 2",
+		"c12 npred 0 2 0 2", "c12 npred 3 2 3 2", "c12 npred 3 2 0", "c12 npred 3 x 0 2", "c12 bpred 0 3 0,1 2", "c12 bpred 2 3 - 2", "c12 bpred 2 3 0,1", "c12 bpred 2 5000 0,1 2"})
 }
 
 func init() {
